@@ -61,10 +61,28 @@ func TestC15(t *testing.T) {
 		if c.Avoid("minsized.uint8_array_items") {
 			widenIntegerItems(c, f)
 		}
+		if rapid.IntRange(0, 2).Draw(rt, "allofrevisit") == 0 {
+			// a definition whose integer bounds coincide with the limits of the chosen type, referenced
+			// directly and through an allOf list (the list visits the property schemas a second time)
+			if c.Avoid("minsized.allof_ref_revisit") {
+				c.ExcludedMap()["minsized.allof_ref_revisit"]++
+			} else {
+				lim := rapid.SampledFrom([][2]float64{{0, 255}, {-128, 127}, {0, 65535}, {-32768, 32767}, {0, 4294967295}, {0, 200}, {-5, 127}}).Draw(rt, "revisitlimits")
+				lo, hi := lim[0], lim[1]
+				sized := &model.Node{Kind: model.KObject, Props: []model.Prop{{Name: "n", Node: &model.Node{Kind: model.KInteger, Minimum: &lo, Maximum: &hi}}}, Required: []string{"n"}}
+				f.Defs = append(f.Defs, model.Def{Name: "ZSized", Node: sized})
+				ref := func() *model.Node { return &model.Node{Kind: model.KRef, Ref: "#/$defs/ZSized", Target: sized} }
+				extra := &model.Node{Kind: model.KObject, Props: []model.Prop{{Name: "q", Node: &model.Node{Kind: model.KBoolean}}}}
+				f.Root.Props = append(f.Root.Props, model.Prop{Name: "zdirect", Node: ref()}, model.Prop{Name: "zmerged", Node: &model.Node{Kind: model.KAllOf, Branches: []*model.Node{ref(), extra}}})
+				f.Root.Required = append(f.Root.Required, "zdirect", "zmerged")
+				c.Count("shape.allof_revisits_sized_definition")
+			}
+		}
 		on, off := baseConfig(), baseConfig()
 		on.MinSizedInts = true
 		csOn := caseOf(on, []string{f.RelPath}, f)
 		csOff := caseOf(off, []string{f.RelPath}, f)
+		countShapes(c, f, csOn.Config)
 		oo := *o
 		oo.AllProps, oo.NoNulls = true, true
 		base, ok := docs.Valid(rt, f.Root, &oo)
